@@ -12,7 +12,8 @@ RULE = ('(a) real step() on random models, 1–4 ranks, all strategies, both met
         '(inactive) / callable / None, learning rates constant / callable / zero: a twin run with kl_clip=None gives the '
         'unclipped V; the clipped gradients must be nu*V with ONE nu for all layers and ranks, nu = min(1, sqrt(kl/|Σ<V,D>lr²|)), '
         'bound nu²lr²|Σ<V,D>| ≤ kl; (b) exact stream: _compute_grad_scale on hand-set dyadic gradients vs the Lean rational '
-        'nu² and the weight/bias split of <V,D>; (c) constructor accepts kl_clip=None; non-trivial = clipping active (nu<1)')
+        'nu² and the weight/bias split of <V,D>; (c) constructor accepts kl_clip=None; non-trivial = clipping active (nu<1)'
+        '; statement oracle on negative inner products; half-precision models whose per-layer terms are exact but whose sum is not; histories mixing unclipped and clipped steps with gradient tensors kept alive and bias-free layers')
 TRUSTED = [
     'Lean 4.33 kernel + Mathlib; axioms audited ⊆ {propext, Classical.choice, Quot.sound}',
     'hand-written models KV.Alg.nuSq/inner and the nu term of KV.Precond/KV.Spec tied to _compute_grad_scale/update_grad',
